@@ -23,9 +23,9 @@ func init() {
 		},
 		NumCases: func(tier string) int {
 			if tier == "thorough" {
-				return 15*4 + 400
+				return 15*4 + 4000
 			}
-			return 15*1 + 60
+			return 15*1 + 200
 		},
 		Run: c19Run,
 		Floors: func(m *Merged, tier string) []string {
@@ -47,7 +47,7 @@ func init() {
 
 var c19Vals = []int{0, 1, 9, 10, 99, 100, 999, 1000, 9998, 9999}
 
-func c19VersionSet(r *rand.Rand) []string {
+func c19VersionSet(r *rand.Rand, thorough bool) []string {
 	var set []string
 	for _, a := range c19Vals {
 		set = append(set, strconv.Itoa(a))
@@ -56,6 +56,16 @@ func c19VersionSet(r *rand.Rand) []string {
 		}
 	}
 	small := []int{0, 1, 9999}
+	if thorough {
+		small = []int{0, 1, 9, 5000, 9998, 9999}
+		for _, a := range c19Vals {
+			for _, b := range c19Vals {
+				for _, c := range c19Vals {
+					set = append(set, fmt.Sprintf("%d.%d.%d", a, b, c))
+				}
+			}
+		}
+	}
 	for _, a := range small {
 		for _, b := range small {
 			for _, c := range small {
@@ -149,7 +159,7 @@ func c19Versions(w *W, r *rand.Rand, alias string, n int) {
 	if n == 0 {
 		nEff = 3
 	}
-	set := c19VersionSet(r)
+	set := c19VersionSet(r, w.Thorough())
 	type enc struct {
 		s string
 		v int64
